@@ -369,14 +369,14 @@ class Session:
         ra, rb = ids.get(a, a), ids.get(b, b)
         self.ev.append({"op": "distincttext", "a": ra, "b": rb})
 
-    def write(self, k, live=None, relabel=None):
+    def write(self, k, live=None, relabel=None, calc=False):
         """live: the graph actually handed to the writer when it is object k under another (wide / sparse) numbering
         `relabel` (label of k -> label of live); the log states everything in k's labels"""
         from tucan.io import graph_to_molfile
         g = self.objs[k]
         before = project(g)
         try:
-            text = graph_to_molfile(live if live is not None else g)
+            text = graph_to_molfile(live if live is not None else g, calc_coordinates=True) if calc else graph_to_molfile(live if live is not None else g)
         except BaseException as ex:  # noqa
             self.ev.append({"op": "raised", "call": "graph_to_molfile", "arg": k, "clause": "C09:graph_to_molfile-raised-" + type(ex).__name__})
             return None
@@ -393,7 +393,7 @@ class Session:
                         six[t] = six_decimals_of_literal(t)
                     except Exception:
                         pass
-        self.ev.append({"op": "write", "arg": k, "lines": lines, "xyz6": xyz6, "six": six, "bonds": bonds})
+        self.ev.append({"op": "write", "arg": k, "lines": lines, "xyz6": xyz6, "six": six, "bonds": bonds, "calc": bool(calc)})
         after = project(g)
         if "bad" not in before and "bad" not in after and after != before:
             self.ev.append({"op": "changed", "obj": k, "g": after, "by": "graph_to_molfile"})
